@@ -173,20 +173,19 @@ Qed.
 
 (* ------------------------------------------------------------------ extract_element *)
 Lemma xe_digits : forall ds rest sz ii tagacc nt tcap vcap,
-  all_digits ds -> ii + lenN ds <= sz -> nt + lenN ds <= tcap ->
+  all_digits ds -> ii + lenN ds <= sz -> nt + lenN ds < tcap ->
   xe_loop (ds ++ rest) sz ii false tagacc [] nt 0 tcap vcap =
   xe_loop rest sz (ii + lenN ds) false (rev ds ++ tagacc) [] (nt + lenN ds) 0 tcap vcap.
 Proof.
   induction ds as [|d ds IH]; intros rest sz ii tagacc nt tcap vcap Hd Hsz Hcap.
   - cbn [lenN app rev]. rewrite !N.add_0_r. reflexivity.
-  - inversion Hd as [|? ? Hd1 Hd2]; subst. cbn [lenN] in *. cbn [app].
-    destruct rest eqn:Er; cbn [xe_loop];
-    (assert (E1 : (ii <? sz) = true) by (apply N.ltb_lt; lia));
-    (assert (E2 : (nt <? tcap) = true) by (apply N.ltb_lt; lia));
-    cbn [app xe_loop]; rewrite E1, Hd1, E2;
-    rewrite IH by (try assumption; lia); cbn [rev]; rewrite <- app_assoc; cbn [app];
-    replace (ii + 1 + lenN ds) with (ii + N.succ (lenN ds)) by lia;
-    replace (nt + 1 + lenN ds) with (nt + N.succ (lenN ds)) by lia; reflexivity.
+  - inversion Hd as [|? ? Hd1 Hd2]; subst. cbn [lenN] in *. cbn [app xe_loop].
+    assert (E1 : (ii <? sz) = true) by (apply N.ltb_lt; lia).
+    assert (E2 : (nt + 1 <? tcap) = true) by (apply N.ltb_lt; lia).
+    rewrite E1, Hd1, E2.
+    rewrite IH by (try assumption; lia). cbn [rev]. rewrite <- app_assoc. cbn [app].
+    replace (ii + 1 + lenN ds) with (ii + N.succ (lenN ds)) by lia.
+    replace (nt + 1 + lenN ds) with (nt + N.succ (lenN ds)) by lia. reflexivity.
 Qed.
 
 Lemma xe_value : forall v rest sz ii tag valacc nt nv tcap vcap,
@@ -203,7 +202,7 @@ Proof.
     rewrite E2, E3. cbn [negb]. rewrite N.add_0_r. reflexivity.
   - inversion Hv as [|? ? Hx Hv']; subst. cbn [lenN] in *. cbn [app xe_loop].
     assert (E1 : (ii <? sz) = true) by (apply N.ltb_lt; lia). rewrite E1, Hx.
-    assert (E3 : (nv <? vcap) = true) by (apply N.ltb_lt; lia). rewrite E3.
+    assert (E3 : (nv + 1 <? vcap) = true) by (apply N.ltb_lt; lia). rewrite E3.
     rewrite IH by (try assumption; lia). cbn [rev]. rewrite <- app_assoc. cbn [app].
     f_equal. lia.
 Qed.
